@@ -14,7 +14,7 @@ REGISTRY["C01"] = dict(
     theorems=T("C01", "C01_push_back", "C01_push_front", "C01_try_push_back", "C01_try_push_front",
                "C01_pop_back", "C01_pop_front", "C01_remove", "C01_swap", "C01_swap_remove_back",
                "C01_swap_remove_front", "C01_truncate_back", "C01_truncate_front", "C01_clear",
-               "C01_make_contiguous", "C01_extend", "C01_fill_spare_with", "C01_fill_with", "C01_drain",
+               "C01_make_contiguous", "C01_extend", "C01_extend_from_slice", "C01_fill_spare_with", "C01_fill_with", "C01_drain",
                "C01_write"),
     cases=P.cases_C01, projection=proj_behaviour, oracles=[P.o_spec, P.o_views, P.o_ledger, P.o_no_defect_panic],
 )
@@ -53,12 +53,12 @@ REGISTRY["C12"] = dict(level="proof", theorems=[], cases=P.cases_C12, projection
                        oracles=[P.o_spec, P.o_leak, P.o_views, P.o_no_defect_panic])
 REGISTRY["C13"] = dict(level="proof", theorems=[], cases=P.cases_C13, projection=proj_behaviour,
                        oracles=[P.o_spec, P.o_views, P.o_no_defect_panic])
-REGISTRY["C14"] = dict(level="proof", theorems=[], cases=P.cases_C14, projection=proj_behaviour,
+REGISTRY["C14"] = dict(level="proof", theorems=T("C14", "C14_write", "C14_read", "C14_fill_buf", "C14_consume"), cases=P.cases_C14, projection=proj_behaviour,
                        oracles=[P.o_spec, P.o_views, P.o_no_defect_panic])
 REGISTRY["C20"] = dict(level="proof", theorems=T("C20", "C20_push_back", "C20_push_front", "C20_pop_back", "C20_pop_front", "C20_swap", "C20_remove", "C20_truncate", "C20_drain", "C20_make_contiguous"), cases=P.cases_C20, projection=proj_physical,
                        oracles=[P.o_spec, P.o_reloc, P.o_views])
 
-IO_THEOREMS = []
+IO_THEOREMS = T("C14", "C14_write", "C14_read", "C14_fill_buf", "C14_consume")
 REGISTRY["C16"] = dict(level="translation_validation", theorems=IO_THEOREMS, cases=P.cases_C16, projection=proj_behaviour,
                        oracles=[P.o_spec, P.o_views, P.o_no_defect_panic],
                        variants=[dict(features=("eio", "eioa"), harness_args=("--io", "eio"), label="embedded-io"),
